@@ -48,10 +48,15 @@ def cases(tier, seed, shard, nshards):
                "direct": rng.random() < 0.25,
                "calls": calls, "susp": susp, "cancel_task": rng.randrange(nt) if rng.random() < 0.45 else None,
                "runs": DFS_LIMIT[tier] if mode == "dfs" else RANDOM_RUNS[tier], "seed": rng.randrange(1 << 30),
-               "exc": rng.choice(PLANNED_NAMES + ["exact:" + k for k in EXACT])}
+               "exc": rng.choice(PLANNED_NAMES + ["exact:" + k for k in EXACT]),
+               "translate": rng.choice([None, None, "from", "from", "implicit", "from_none"])}
 
 
 BodyError = Planned  # the body's failure: one of the PLANNED family, chosen per scenario
+class Translated(Exception):
+    """What a context raises in place of the body's failure."""
+
+
 EXACT = {"Exception": Exception, "BaseException": BaseException, "StopAsyncIteration": StopAsyncIteration,
          "RuntimeError": RuntimeError, "KeyError": KeyError}
 
@@ -62,6 +67,21 @@ def execute(case, choose, cancel_at=None):
     counter = {"gid": 0, "call": 0}
     susp = case["susp"]
     suppress = case["suppress"]
+
+    translated = {}
+
+    def translate(exc):
+        """The context replaces the body's failure by its own exception (chained explicitly, implicitly, or not)."""
+        how = case.get("translate")
+        if how is None or not isinstance(exc, Exception):
+            return
+        new = Translated(len(translated))
+        translated[id(exc)] = (exc, new)
+        if how == "from":
+            raise new from exc
+        if how == "from_none":
+            raise new from None
+        raise new
 
     if case["manager"] == "generator":
         @A.contextmanager
@@ -79,6 +99,7 @@ def execute(case, choose, cancel_at=None):
                     await Suspend(("exit", gid), susp["exit"])
                 if suppress and isinstance(exc, Exception):
                     return
+                translate(exc)
                 raise
             else:
                 ev.append((CTX.current, "exit", gid, None))
@@ -98,6 +119,8 @@ def execute(case, choose, cancel_at=None):
                 ev.append((CTX.current, "exit", "shared", exc))
                 if susp["exit"]:
                     await Suspend(("exit", "shared"), susp["exit"])
+                if exc is not None and not (suppress and isinstance(exc, Exception)):
+                    translate(exc)
                 return bool(suppress and isinstance(exc, Exception))
 
         deco = Manager()
@@ -127,7 +150,8 @@ def execute(case, choose, cancel_at=None):
             try:
                 r = await body(cid, how)
             except BaseException as exc:  # noqa: BLE001
-                if not isinstance(exc, BodyError) and exc is not raised.get(cid):
+                planned = raised.get(cid)
+                if not isinstance(exc, BodyError) and exc is not planned and exc is not translated.get(id(planned), (0, 0))[1]:
                     raise  # not the body's planned failure (a cancellation, or something the library made up)
                 ev.append((CTX.current, "done", cid, ("raise", exc)))
             else:
@@ -210,7 +234,7 @@ def execute(case, choose, cancel_at=None):
                     # (the scenario's managers suppress Exceptions only, like most real ones)
                     want_out = ("ok", None)
                 else:
-                    want_out = ("raise", raised.get(cid))
+                    want_out = ("raise", translated.get(id(raised.get(cid)), (0, raised.get(cid)))[1])
                 same = outcome[0] == want_out[0] and (outcome[1] is want_out[1] if want_out[0] == "raise" else outcome[1] == want_out[1])
                 if not same:
                     viols.append(("decorator/call-outcome", f"{t.name} call {cid} ({how}, suppress={suppress}): {outcome}, expected {want_out}"))
